@@ -17,6 +17,7 @@ def parseScript (s : String) : Option (List Outcome) :=
     | some l, 'p' => some (.pending :: l)
     | some l, 's' => some (.wakeSelf :: l)
     | some l, 'c' => some (.cloneWaker :: l)
+    | some l, 'W' => some (.remoteWake :: l)
     | some l, 'r' => some (.ready :: l)
     | some l, 'x' => some (.panic :: l)
     | _, _ => none) (some [])
@@ -38,6 +39,9 @@ def showResp : Resp → String
   | .cancel r =>
     match r with
     | .ok => "ok some" | .cancelled => "ok none" | .panicked => "ok none" | .pending => "ok pending" | .invalid => "invalid"
+  | .full => "full"
+  | .wokeB none => "ok"
+  | .wokeB (some (log, hot)) => s!"ok polled {showList log} hot={if hot then 1 else 0}"
 
 /-- text line → operation of the model (`tick` takes `max_interval` from the `new` line) -/
 def parseOp (n : Nat) : List String → Option Op
@@ -52,12 +56,21 @@ def parseOp (n : Nat) : List String → Option Op
   | ["wake", id] => id.toNat?.map .wake
   | ["wdrop", id] => id.toNat?.map .wdrop
   | ["xdrop"] => some .xdrop
+  | ["rhpoll", id, w] => match id.toNat?, w.toNat? with
+    | some id, some w => some (.rhpoll id w)
+    | _, _ => none
+  | ["rhdrop", id] => id.toNat?.map .rhdrop
+  | ["rhcancel", id] => id.toNat?.map .rhcancel
+  | ["rwake", id] => id.toNat?.map .rwake
+  | ["rwakeb", id] => id.toNat?.map (fun i => .rwakeb i n)
+  | ["rwdrop", id] => id.toNat?.map .rwdrop
   | _ => none
 
 def step (s : St) (line : String) : St × String :=
   if line.startsWith "#case" then (s, line.trimAscii.toString) else
   match words line with
   | ["new", n] => ({ e := Exec.init, n := n.toNat?.getD 61 }, "ok")
+  | ["new", n, q] => ({ e := Exec.new (q.toNat?.getD 64), n := n.toNat?.getD 61 }, "ok")
   | ["stat", id] =>
     match id.toNat? with
     | some id =>
